@@ -260,6 +260,8 @@ def stage3(u, cs, A, IMPL):
     sb.rewrite_re('R1', r'let &idx = &op_indices\[(\w+)\];', r'let idx = op_indices[\1];', min_count=0)
     sb.attr('#[verifier::loop_isolation(false)]')
     sb.requires('window_in_range', 'plw == NPREP && preprocessed@.len() < 0x1_0000_0000 && forall|p: int| 0 <= p < op_indices@.len() ==> (#[trigger] op_indices@[p] + 1) * NPREP <= preprocessed@.len()')
+    # a packed group publishes only its LAST step's output: packing is sound only if nothing but the next step reads an intermediate output (finding C09-packed-group-drops-intermediate-creator)
+    sb.ensures('H_a_packable_window_has_no_intermediate_output_that_another_op_reads', 'ret ==> window_intermediates_read_only_by_the_chain(preprocessed@, op_indices@)')
     sb.ensures('true_iff_every_op_of_the_window_reads_the_same_b', 'ret == forall|p: int| 0 <= p < op_indices@.len() ==> b_of(preprocessed@, (#[trigger] op_indices@[p]) as int) == b_of(preprocessed@, op_indices@[0] as int)')
     for hd in [h for h in ('for q0_ in 0..op_indices.len()',) if h in sb.body]:
         lo = sb._loop_open(hd)
@@ -273,6 +275,8 @@ def stage3(u, cs, A, IMPL):
     u.text('}')
     u.text("""verus! {
 /// the contract above, read on the window chain[i..i+k] (how compute_schedule passes it)
+/// the outputs of all but the last op of the window are read by no op outside the window (what a packed Horner row needs: it creates only the last output); nothing in the packing predicate establishes it
+pub uninterp spec fn window_intermediates_read_only_by_the_chain(pre: Seq<Fe>, idx: Seq<usize>) -> bool;
 #[verifier::external_body]
 pub fn horner_ops_share_b_idx(preprocessed: &[Fe], plw: usize, chain: &Vec<usize>, i: usize, k: usize) -> (r: bool)
     requires i + k <= chain@.len()
